@@ -272,3 +272,20 @@ Print Assumptions intersect_order_is_source_partial.
 Theorem prefer_self_is_source : forall x y, prefer_self x y = prefer_self_gen x y.
 Proof. exact prefer_self_bridge. Qed.
 Print Assumptions prefer_self_is_source.
+
+(* ---- tie to the source: Table.merge itself as tools/py2v_merge regenerates it from biom/table.py
+   on every check (Gen/MergeGen.v over the vocabulary Gen/MergePrelude.v): normalising `other`, the
+   fast-path condition, the pairwise loop through the recursive call.  The generated method takes
+   the target of its recursive call as a parameter; two unfoldings are the method, whatever stands
+   at the third level (merge_recursion_is_source). *)
+From BiomV Require Import Gen.MergePrelude Gen.MergeGen Proofs.GenBridgeMergeWrapProofs.
+Theorem merge_dispatch_is_source : forall self sm om fs fo,
+  (forall others, gen_merge_closed self (AList others) sm om fs fo = merge_dispatch self others sm om fs fo) /\
+  (forall other, gen_merge_closed self (ATable other) sm om fs fo = merge_dispatch self [other] sm om fs fo).
+Proof. exact merge_dispatch_bridge. Qed.
+Print Assumptions merge_dispatch_is_source.
+
+Theorem merge_recursion_is_source : forall (rec : merge_rec) self a sm om fs fo,
+  gen_merge (gen_merge rec) self a sm om fs fo = gen_merge_closed self a sm om fs fo.
+Proof. exact merge_recursion_closed. Qed.
+Print Assumptions merge_recursion_is_source.
